@@ -749,6 +749,46 @@ def rec_case(ctx, P):
                               "pad %d + 1 + MAC %d accepted, yields %d bytes"
                               % (len(plain), p, maclen, len(got)))
 
+    # ---- SSLv3: everything right except that the padding is longer than
+    # one block (the bound depends on the *cipher's* block size) -----------
+    if not etm and ver == (3, 0):
+        for clen in (0, 1, 5, 13, rng.randrange(0, 40)):
+            p0 = (-(clen + maclen + 1)) % block
+            for p in (p0 + block, p0 + 2 * block):
+                if p <= block or p > 255:
+                    continue
+                seqn = rng.randrange(0, 1000)
+                rl2, sock2 = receiver(su, ver, etm, secrets)
+                rl2.changeReadState()
+                rl2._readState.seqnum = seqn
+                s2 = Sender(su, ver, etm, keys)
+                s2.seq = seqn
+                content = rng.randbytes(clen)
+                plain = s2.plaintext(23, content, p, rng)
+                wire = s2.seal(23, plain, rng)
+                ctx.ev()
+                ctx.count("rec_negative")
+                ctx.count("rneg:ssl3_pad_over_block")
+                try:
+                    hdr, got = recv_one(rl2, sock2, wire)
+                except TLSBadRecordMAC:
+                    ctx.count("rec_negative_rejected")
+                except Exception as e:   # noqa
+                    viol(ctx, {"clause": "record_reject_wrong_error",
+                               "fam": fam, "mode": mode,
+                               "corrupt": "ssl3_pad_over_block",
+                               "exc": type(e).__name__},
+                         wit_r(seq=seqn, ctype=23, pad=p, wire=wire),
+                         "raised %r, not TLSBadRecordMAC" % (e,))
+                else:
+                    viol(ctx, {"clause": "record_false_accept", "fam": fam,
+                               "mode": mode,
+                               "corrupt": "ssl3_pad_over_block"},
+                         wit_r(seq=seqn, ctype=23, pad=p, wire=wire,
+                               content=content, got=got),
+                         "SSLv3 record with %d bytes of padding (block %d) "
+                         "accepted" % (p, block))
+
     # ---- sender side: tlslite writes, the specification reads -----------
     wl, wsock = receiver(su, ver, etm, secrets, client=True)
     wl.changeWriteState()
